@@ -275,7 +275,7 @@ func TestC19_TEMPLATE(t *testing.T) {
 	dir := t.TempDir()
 	runProp(t, "C19_TEMPLATE", func(t *rapid.T) c19Template {
 		c := c19Template{Settings: genSettings(t), TypeB: rapid.Bool().Draw(t, "typeB"), NoUser: rapid.Bool().Draw(t, "nouser"), Split: rapid.Bool().Draw(t, "split")}
-		c.User = rapid.SampledFrom([]string{"alice", "bob@example.com", "Ünï cødé", "a:b", "x y"}).Draw(t, "user")
+		c.User = rapid.SampledFrom([]string{"alice", "bob@example.com", "Ünï cødé", "a:b", "x y", "alice ", " alice", "bob @ example.com"}).Draw(t, "user")
 		c.Earlier = rapid.SliceOfN(rapid.SampledFrom([]string{"carol@corp.example", "dave", "erin@x", "alice"}), 0, 3).Draw(t, "earlier")
 		if rapid.IntRange(0, 5).Draw(t, "broken") == 0 {
 			c.Broken = rapid.SampledFrom([]string{"no colons here", "onlyname:", "desktopwidth:i:wide", "desktopwidth:i:", "audiomode:x:1", "name:s", "missing-file"}).Draw(t, "brokenLine")
@@ -447,10 +447,19 @@ func TestC19_TEMPLATE(t *testing.T) {
 				}
 			}
 		}
+		var blanksLost *Violation
 		for k, w := range wantCtl {
+			if ws, isText := w.(string); isText && (k == "username" || k == "domain") && ws != strings.TrimSpace(ws) && got[k] == strings.TrimSpace(ws) {
+				// listed finding: the reader strips blanks at the ends of every line and value, the builder writes them
+				blanksLost = viol("c19/outer-blanks-lost", "%s %q is written to the file as it is and read back as %q: the reader does not yield what the builder held", k, ws, got[k])
+				continue
+			}
 			if !reflect.DeepEqual(got[k], w) {
 				return viol("c19/controlled-setting", "setting %q must be %v (gateway-controlled), generated file has %v", k, w, got[k])
 			}
+		}
+		if blanksLost != nil {
+			return blanksLost // every other clause held for this case
 		}
 		return nil
 	})
